@@ -764,14 +764,21 @@ def l2_alu(spec, opspec):
     op, _ = mk_region(opspec, "snax_alu")
     names, got = lower_with(acc, op)
 
+    ub0 = opspec["pats"][0][0]
+    steps = 1
+    for b in ub0:
+        steps *= b
+
     def extra(name):
         if name == "alu_mode":
             return ("c", 0)
         if name == "loop_bound_alu":
-            return ("c", opspec["pats"][0][0][0])
+            return ("c", steps)      # the kernel loop count must equal the number of temporal steps of the stream
         return None
 
-    return check_setup(names, got, spec, opspec, extra)
+    probs = check_setup(names, got, spec, opspec, extra)
+    only_lb = probs and all(p.get("field") == "loop_bound_alu" and p.get("got") == ("c", ub0[0]) for p in probs)
+    return probs, ("alu_loop_bound_first_dim" if only_lb and len(ub0) > 1 else None)
 
 
 # ---- xDMA
@@ -945,7 +952,7 @@ def l2_gemmx(spec, n, opspec, kind, zp, resc, through_pass=False):
     acc = SNAXGEMMXAccelerator(mk_cfg(spec), 8, n, 8)
     text = region_text(opspec, "snax_gemmx", gemmx_body(kind, len(opspec["operands"]), zp, resc))
     resc = dict(resc)
-    resc["dr"] = -1 if resc["dr"] else 0     # `true : i1` is the integer -1 in xDSL; csr1 receives that value
+    resc["dr"] = 1 if resc["dr"] else 0       # meaning of csr1: the double_round flag
     if through_pass:
         names, got, _ = lower_through_pass(acc, text)
     else:
@@ -956,7 +963,10 @@ def l2_gemmx(spec, n, opspec, kind, zp, resc, through_pass=False):
         setup = [o for o in ops if isinstance(o, accfg.SetupOp)][0]
         names = [p.data for p in setup.param_names]
         got = [eval_ssa(operands, v) for v in setup.values]
-    return check_setup(names, got, spec, opspec, gemmx_extra(n, opspec, kind, zp, resc))
+    probs = check_setup(names, got, spec, opspec, gemmx_extra(n, opspec, kind, zp, resc))
+    # `true : i1` is the integer -1 in xDSL and is written to csr1 as an i32: known finding F24
+    only_dr = probs and all(p.get("field") == "csr1" and p.get("got") == ("c", -1) and p.get("want") == ("c", 1) for p in probs)
+    return probs, ("double_round_allones" if only_dr else None)
 
 
 def gen_gemmx_l2(rng, i):
@@ -1070,12 +1080,12 @@ def _run_case(f):
     if "op" in f:
         opspec = {"pats": [tuple(p) for p in f["op"]["pats"]], "operands": list(f["op"]["operands"])}
     if acc == "snax_alu":
-        return l2_alu(spec, opspec), None
+        return l2_alu(spec, opspec)
     if acc == "snax_xdma":
         return l2_xdma(spec, opspec, f["body"], f.get("rescale") or {"zpin": 0, "zpout": 0, "mult": [1], "shift": [0], "max": 127, "min": -128, "dr": 0},
                        f.get("through_pass", False))
     if acc == "snax_gemmx":
-        return l2_gemmx(spec, f["n"], opspec, f["body"], tuple(f["zp"]), f["rescale"], f.get("through_pass", False)), None
+        return l2_gemmx(spec, f["n"], opspec, f["body"], tuple(f["zp"]), f["rescale"], f.get("through_pass", False))
     if acc == "snax_hwpe_mult":
         fields, hv = impl_hwpe()
         return [{"what": "value", "fields": fields, "values": hv}] if hv[3][0] == "one" and hv[4][0] == "dim0" else [], "hwpe_names_swapped"
